@@ -20,7 +20,7 @@ LEVEL = 'fault_enumeration'
 RULE = ('every truncation offset 0..len-1 (binary and text files byte-wise) of one file at a time - the file of the first, middle '
         'and last replica - for: openQCD reweighting factors v1.4 / 1.6 / 2.0, openQCD ms.dat (read_qtop, extract_t0 with and '
         'without plaquette), sfqcd gfms (read_qtop Wilson and Zeuthen flow), ms5_xsf, sfcf separate / compact / appended '
-        'layout (bi, bb and bib correlators; first, middle and last block of the file; first and last configuration); every '
+        'layout (bi, bb and bib correlators; first, middle and last block of the file; first and last configuration; quick: byte-wise around the requested block and the file end and every 7th byte elsewhere, thorough: every byte); every '
         'offset of the compressed stream of json.gz / xml.gz (dobs, pobs) / csv.gz exports.  Outcome classes are counted; '
         'non-trivial = the offset lies strictly inside a record (not on a record boundary)')
 ASSUMPTIONS = ['binary formats: a complete record is the full on-disk record (configuration number and all its blocks); a result that '
@@ -57,7 +57,7 @@ def build(tier, seed):
     for version in ('1.4', '1.6', '2.0'):
         for which in (0, 1, 2):
             cases.append({'kind': 'rwms', 'version': version, 'which': which})
-    for which in (0, 1):
+    for which in ((0, 1) if tier == 'quick' else (0, 1)):
         cases.append({'kind': 'msdat', 'reader': 'qtop', 'which': which})
         cases.append({'kind': 'msdat', 'reader': 't0', 'which': which})
         cases.append({'kind': 'msdat', 'reader': 't0-plaquette', 'which': which})
@@ -313,7 +313,7 @@ def run_sfcf(pe, acc, case, d):
         marker = ('name      %s\nquarks    %s\noffset    %d\nwf        %d' % (name, sf.QUARKS[qi], off, w)).encode()
         if typ != 'bi':
             marker += ('\nwf_2      %d' % w2).encode()
-        offs = set(range(0, len(data), 7))
+        offs = set(range(0, len(data), 7 if os.environ.get('VERIF_TIER', 'quick') == 'quick' else 1))
         pos = data.find(marker)
         while pos >= 0:
             offs |= set(range(max(0, pos - 60), min(len(data), pos + 60 + 60 * T + 120)))
